@@ -24,3 +24,40 @@ Theorem C08_layouts_differ_only_in_stco : forall v vt vt' c,
     build_stbl_box v vt' c = be32 (8 + len (pre ++ build_stco_box (st_chunk_offsets vt') ++ post)) ++ T_stbl ++ pre ++ build_stco_box (st_chunk_offsets vt') ++ post.
 Proof. exact stbl_differs_only_in_stco. Qed.
 Print Assumptions C08_layouts_differ_only_in_stco.
+
+From Muxide Require Export Model.Writer Model.Api Spec.Checks Proofs.EndToEndProofs Proofs.FastStartProofs.
+(* END TO END: for every configuration and history, the files obtained with fast start on and off
+   have the prescribed top-level order and describe identical tracks, sample entries, timing, sample
+   bytes and sync flags through the independent reader (everything but chunk offsets) *)
+Theorem C08_fast_start_changes_only_the_layout : forall b m_on m_off ops s_on s_off,
+  build (with_fast b true) [] = inl m_on -> build (with_fast b false) [] = inl m_off ->
+  In (RStats s_on) (snd (run m_on ops)) -> In (RStats s_off) (snd (run m_off ops)) ->
+  Forall op_payload_ok ops ->
+  len (sink_of (fst (run m_on ops))) < 4294967296 -> len (sink_of (fst (run m_off ops))) < 4294967296 ->
+  check_C08 (negb (match vsamples (m_writer (fst (run m_on ops))) ++ asamples (m_writer (fst (run m_on ops))) with [] => true | _ => false end))
+            (sink_of (fst (run m_on ops))) (sink_of (fst (run m_off ops))) = true.
+Proof. exact fast_start_changes_only_the_layout. Qed.
+Print Assumptions C08_fast_start_changes_only_the_layout.
+
+Theorem C08_fast_start_does_not_change_queues : forall b m_on m_off ops,
+  build (with_fast b true) [] = inl m_on -> build (with_fast b false) [] = inl m_off ->
+  vsamples (m_writer (fst (run m_on ops))) = vsamples (m_writer (fst (run m_off ops))) /\
+  asamples (m_writer (fst (run m_on ops))) = asamples (m_writer (fst (run m_off ops))).
+Proof. exact fast_start_does_not_change_queues. Qed.
+Print Assumptions C08_fast_start_does_not_change_queues.
+
+Theorem C08_fast_start_does_not_change_results_before_finish : forall b m_on m_off ops,
+  build (with_fast b true) [] = inl m_on -> build (with_fast b false) [] = inl m_off ->
+  Forall (fun o => o <> FIN) ops ->
+  snd (run m_on ops) = snd (run m_off ops).
+Proof. exact fast_start_does_not_change_results_before_finish. Qed.
+Print Assumptions C08_fast_start_does_not_change_results_before_finish.
+
+(* model-level finding: within 40 bytes of the 4 GiB limit the outcome of finish itself depends on
+   the layout (u32 cursor panic in the standard layout only) *)
+Theorem C08_finish_outcome_depends_on_layout_near_4GiB_refuted :
+  exists b m_on m_off ops,
+    build (with_fast b true) [] = inl m_on /\ build (with_fast b false) [] = inl m_off /\
+    map class_of (snd (run m_on ops)) <> map class_of (snd (run m_off ops)).
+Proof. exact fast_start_does_not_change_results_counterexample. Qed.
+Print Assumptions C08_finish_outcome_depends_on_layout_near_4GiB_refuted.
